@@ -42,6 +42,12 @@ func scenarios(c *vlib.Ctx) []*slib.Scn {
 			fam = "c01/mgmt"
 		}
 		out = append(out, &slib.Scn{Scenario: modules.VerifC01(p), Family: fam, Bound: bound})
+		// the same driver under the second default scheduler (youngest thread first)
+		hb := bound
+		sc := modules.VerifC01(p)
+		sc.Name += "/sched=high"
+		sc.HighFirst = true
+		out = append(out, &slib.Scn{Scenario: sc, Family: fam, Bound: hb})
 	}
 	maxN := vlib.Pick(c, 3, 3)
 	for n := 1; n <= maxN; n++ {
@@ -52,6 +58,10 @@ func scenarios(c *vlib.Ctx) []*slib.Scn {
 		for _, g := range graphs(n) {
 			// no fault
 			add(modules.C01Params{N: n, Deps: g, Pts: 1}, b)
+			if len(g) > 0 {
+				// modules with a worker that winds down after cancellation
+				add(modules.C01Params{N: n, Deps: g, Pts: 1, Work: true}, b)
+			}
 			// exactly one faulty callback
 			for m := 0; m < n; m++ {
 				for _, ph := range []string{"prep", "start", "stop"} {
